@@ -183,8 +183,36 @@ class PolyEval(Evaluator):
         return out
 
 
+def constant_state(fn, index, classes=None):
+    """state attributes `fn` reads beyond the geometric ones that are stored as a numeric constant somewhere in the polygon
+    classes (an orientation flag set to 1.0 at construction ...): on the histories that take that store the attribute is
+    orientation-free - the measure is evaluated with that value."""
+    # (only stores made by the class that defines the measure and its bases: a subclass that normalises the vertex order -
+    # ConvexPolygon sorts counter-clockwise - may rightly store a constant orientation)
+    if classes is None:
+        classes = [c.name for c in fn.cls.mro] if fn.cls is not None else ["Polygon"]
+    known_attr = set(base_env())
+    out = {}
+    reads = {a_.attr for a_ in ast.walk(fn.node) if isinstance(a_, ast.Attribute) and isinstance(a_.value, ast.Name) and a_.value.id == "self"
+             and isinstance(a_.ctx, ast.Load) and f"self.{a_.attr}" not in known_attr}
+    for cn_ in classes:
+        if cn_ not in index.classes:
+            continue
+        cdef = index.cls(cn_)
+        for f_ in list(cdef.methods.values()) + [x for p_ in cdef.props.values() for x in (p_.getter, p_.setter) if x]:
+            for st_ in ast.walk(f_.node):
+                if isinstance(st_, ast.Assign) and isinstance(st_.value, ast.Constant) and isinstance(st_.value.value, (int, float)) \
+                        and not isinstance(st_.value.value, bool):
+                    for t_ in st_.targets:
+                        if isinstance(t_, ast.Attribute) and isinstance(t_.value, ast.Name) and t_.value.id == "self" and t_.attr in reads:
+                            out[f"self.{t_.attr}"] = SV("scal", [Poly.const(st_.value.value)])
+    return out
+
+
 def evaluate(fn, extra_env=None, extra_attr=None, index=None):
     attr = base_env()
+    if index is not None and extra_attr is None:
+        extra_attr = constant_state(fn, index)
     attr.update(extra_attr or {})
     ev = PolyEval(attr, extra_env)
     if fn.cls is not None:
